@@ -1,5 +1,5 @@
 (** C11 -- Server clients are isolated; a session leaves nothing behind. *)
-From Verif Require Import Base.Prelude M1.Containers M1.Server M1.ServerProofs.
+From Verif Require Import Base.Prelude M1.Containers M1.Server M1.ServerProofs M1.ServerInv.
 
 (** every state: when a client's session ends nothing of it stays in the endpoint's containers --
     no queue (hence no queued or outstanding call), no pending id, no callback: a later session of a
@@ -41,3 +41,11 @@ Theorem C11_handler_speaks_of_its_client : forall l s c, concerns l c ->
   exists new, str (sstep l s) = new ++ str s /\ Forall (fun e => ev_client e = Some c) new.
 Proof. exact s_handler_speaks_of_its_client. Qed.
 Print Assumptions C11_handler_speaks_of_its_client.
+
+(** EVERY schedule: a request queue exists only for a connected client and only while the dispatcher runs; the pending id
+    of a client is the head of its own queue -- per-client state never refers to another client or to an ended session *)
+Theorem C11_queues_belong_to_sessions : forall cap d ls, Forall wf_slab ls ->
+  let s := srun ls (sinit cap d) in
+  (running s = false -> forall c, qof s c = None) /\ (forall c, qof s c <> None -> mem c (conns s) = true).
+Proof. exact s_queues_belong_to_sessions_S1. Qed.
+Print Assumptions C11_queues_belong_to_sessions.
